@@ -95,6 +95,8 @@ type Proc struct {
 	Steps        int64
 	StepBudget   int64
 	loopRun      int64
+	loopMinDepth int
+	loopMaxDepth int
 	compiling    bool
 	compileStart int64
 	MaxDepthOK   bool
@@ -116,6 +118,11 @@ const defaultStepBudget = 2_000_000
 const depthBudget = 100_000
 const stuckLoopBudget = 200_000
 const compileBudget = 1_000_000
+
+var compileSites = map[string]bool{"cmd.doInit": true, "cmd.declared": true, "cmd.mkOpt": true, "cmd.mkArg": true, "lexer.loop": true,
+	"parser.seq": true, "parser.choice": true, "parser.atom": true, "fsm.simplify": true, "fsm.simplifySelf": true, "fsm.sort": true}
+
+var depthSample = make([]uintptr, 8192)
 
 var loopSites = map[string]bool{"lexer.loop": true, "parser.seq": true, "parser.choice": true, "matcher.options.loop": true,
 	"matcher.opt.loop": true, "matcher.short.loop": true, "fsm.simplifySelf": true}
@@ -255,17 +262,27 @@ func pointHook(site string) {
 	// can legitimately be exceeded by the matcher's exponential backtracking and only nominates.
 	if loopSites[site] {
 		p.loopRun++
-		if p.loopRun > stuckLoopBudget {
+		if p.loopRun&255 == 0 {
+			// A frame-local loop that never ends keeps the call stack where it is; a backtracking search whose
+			// recursion simply is not instrumented (a refactoring may drop Points) moves up and down.
+			d := runtime.Callers(0, depthSample)
+			if p.loopRun == 256 || d < p.loopMinDepth {
+				p.loopMinDepth = d
+			}
+			if p.loopRun == 256 || d > p.loopMaxDepth {
+				p.loopMaxDepth = d
+			}
+		}
+		if p.loopRun > stuckLoopBudget && p.loopMaxDepth-p.loopMinDepth <= 3 {
 			panic(&budgetSentinel{"stuck-loop"})
 		}
 	} else {
 		p.loopRun = 0
-		switch site {
-		case "cmd.doInit":
-			p.compiling, p.compileStart = true, p.Steps
-		case "fsm.Parse":
-			p.compiling = false
-		}
+	}
+	if site == "cmd.doInit" {
+		p.compiling, p.compileStart = true, p.Steps
+	} else if p.compiling && !compileSites[site] {
+		p.compiling = false // whatever comes after the compilation of a spec ends it
 	}
 	if p.compiling && p.Steps-p.compileStart > compileBudget {
 		panic(&budgetSentinel{"compile"})
